@@ -254,6 +254,89 @@ class IfExpToIf(ast.NodeTransformer):
         return node
 
 
+class AddDocstring(ast.NodeTransformer):
+    """every function and class without a docstring gets one (the first statement of a body is no longer code)"""
+    def _doc(self, node):
+        self.generic_visit(node)
+        if not ast.get_docstring(node, clean=False):
+            node.body = [ast.Expr(ast.Constant(value="Documented in the reference manual."))] + node.body
+        return node
+    visit_FunctionDef = visit_AsyncFunctionDef = visit_ClassDef = _doc
+
+
+class ReorderMethods(ast.NodeTransformer):
+    """the methods of a class in reverse order of definition; a getter and its setter stay one block in their own
+    order, other class-level statements keep their places; classes whose class-level statements or decorators
+    name a method are left alone"""
+    def visit_ClassDef(self, node):
+        self.generic_visit(node)
+        fns = [s for s in node.body if isinstance(s, (ast.FunctionDef, ast.AsyncFunctionDef))]
+        names = {f.name for f in fns}
+        for s in node.body:
+            if isinstance(s, (ast.FunctionDef, ast.AsyncFunctionDef)):
+                for d in s.decorator_list:
+                    for n in ast.walk(d):
+                        if isinstance(n, ast.Name) and n.id in names and n.id != s.name:
+                            return node
+                for d in s.args.defaults + s.args.kw_defaults:
+                    if d is not None and any(isinstance(n, ast.Name) and n.id in names for n in ast.walk(d)):
+                        return node
+            elif any(isinstance(n, ast.Name) and n.id in names for n in ast.walk(s)):
+                return node
+        blocks, order = {}, []
+        for f in fns:
+            if f.name not in blocks:
+                blocks[f.name] = []; order.append(f.name)
+            blocks[f.name].append(f)
+        flat = [f for name in reversed(order) for f in blocks[name]]
+        it = iter(flat)
+        node.body = [next(it) if isinstance(s, (ast.FunctionDef, ast.AsyncFunctionDef)) else s for s in node.body]
+        return node
+
+
+class HoistCondition(ast.NodeTransformer):
+    """if <call / comparison / boolean expression>: ...  ->  condition_N = <test>; if condition_N: ...   (statement level;
+    an elif becomes else: condition_N = ...; if condition_N: ...)"""
+    def __init__(self): self.n = 0
+    def _block(self, stmts):
+        out = []
+        for st in stmts:
+            if isinstance(st, ast.If) and isinstance(st.test, (ast.Call, ast.Compare, ast.BoolOp, ast.UnaryOp)):
+                self.n += 1
+                name = f"condition_{self.n}"
+                out.append(ast.Assign(targets=[ast.Name(id=name, ctx=ast.Store())], value=st.test))
+                st.test = ast.Name(id=name, ctx=ast.Load())
+            out.append(st)
+        return out
+    def visit_FunctionDef(self, node):
+        saved = self.n; self.n = 0
+        self.generic_visit(node)
+        self.n = saved
+        return node
+    visit_AsyncFunctionDef = visit_FunctionDef
+    def generic_visit(self, node):
+        ast.NodeTransformer.generic_visit(self, node)
+        if isinstance(node, (ast.ClassDef, ast.Module)):
+            return node
+        for fld in ('body', 'orelse', 'finalbody'):
+            v = getattr(node, fld, None)
+            if isinstance(v, list) and v and isinstance(v[0], ast.stmt):
+                setattr(node, fld, self._block(v))
+        if hasattr(node, 'handlers'):
+            for h in node.handlers: h.body = self._block(h.body)
+        return node
+
+
+class NegatedOperators(ast.NodeTransformer):
+    """a is not b -> not a is b;  a not in b -> not a in b   (single comparisons)"""
+    def visit_Compare(self, node):
+        self.generic_visit(node)
+        if len(node.ops) == 1 and isinstance(node.ops[0], (ast.IsNot, ast.NotIn)):
+            op = ast.Is() if isinstance(node.ops[0], ast.IsNot) else ast.In()
+            return ast.UnaryOp(op=ast.Not(), operand=ast.Compare(left=node.left, ops=[op], comparators=node.comparators))
+        return node
+
+
 def _transform_overlay(transformer) -> Dict[str, str]:
     out = {}
     for dp, _dn, fn in os.walk(os.path.join(SRC, "krrood")):
@@ -281,6 +364,10 @@ TRANSFORMERS = {
     "whole-tree-split-isinstance": SplitIsinstance,
     "whole-tree-comprehension-to-loop": CompToLoop,
     "whole-tree-conditional-expression-to-if": IfExpToIf,
+    "whole-tree-add-docstrings": AddDocstring,
+    "whole-tree-reorder-methods": ReorderMethods,
+    "whole-tree-hoist-conditions": HoistCondition,
+    "whole-tree-negated-operators": NegatedOperators,
 }
 WHOLE_TREE = dict(TRANSFORMERS)
 
